@@ -139,8 +139,11 @@ pub fn walk_table<'a>(s: &mut Session, cx: &mut Ctx, t: &(dyn SomeTable<'a> + 'a
 #[macro_export]
 macro_rules! rt {
     ($s:expr, $cx:expr, $ty:expr, $owned:ty, $read:ty, $label:expr, $v:expr) => {{
+        rt!($s, $cx, $ty, $owned, $read, $label, $v, |_, _| {})
+    }};
+    ($s:expr, $cx:expr, $ty:expr, $owned:ty, $read:ty, $label:expr, $v:expr, $norm:expr) => {{
         let v: &$owned = $v;
-        if let Some(bytes) = $crate::roundtrip($s, $ty, $label, v) {
+        if let Some(bytes) = $crate::roundtrip_with($s, $ty, $label, v, $norm) {
             let r = fv_harness::common::catch(|| {
                 <$read as read_fonts::FontRead>::read(read_fonts::FontData::new(&bytes))
             });
